@@ -94,7 +94,59 @@ class Baseline:
                 pass
 
 
+class ProcessStates:
+    """One copy of the library's mutable process state per simulated OS process.  The scheduler calls
+    switch_to(key) before it lets a process run, so a module-level cache filled by one simulated process is not
+    visible to another one - while several loads made by the SAME simulated process do share it."""
+
+    def __init__(self, baseline):
+        self.b = baseline
+        self.current = None
+        self.store = {}
+
+    def _capture(self):
+        return ([(copy.deepcopy(fn.__defaults__), copy.deepcopy(fn.__kwdefaults__)) for fn, _, _ in self.b.funcs],
+                [copy.deepcopy(obj) for obj, _ in self.b.objs],
+                [getattr(owner, attr, val) for owner, attr, val in self.b.attrs])
+
+    def _apply(self, snap):
+        if snap is None:
+            self.b.restore()
+            return
+        fdefs, objs, attrs = snap
+        for (fn, _, _), (d, kd) in zip(self.b.funcs, fdefs):
+            fn.__defaults__, fn.__kwdefaults__ = copy.deepcopy(d), copy.deepcopy(kd)
+        for (obj, _), val in zip(self.b.objs, objs):
+            try:
+                _set_in_place(obj, val)
+            except Exception:
+                pass
+        for c in self.b.caches:
+            try:
+                c.cache_clear()          # an lru_cache cannot be copied: every process switch starts it cold
+            except Exception:
+                pass
+        for (owner, attr, _), val in zip(self.b.attrs, attrs):
+            try:
+                setattr(owner, attr, val)
+            except Exception:
+                pass
+
+    def switch_to(self, key, fresh=False):
+        if key == self.current and not fresh:
+            return
+        if self.current is not None:
+            self.store[self.current] = self._capture()
+        self._apply(None if fresh else self.store.get(key))
+        self.current = key
+
+
 _BASELINE = None
+
+
+def process_states():
+    reset_library_state()
+    return ProcessStates(_BASELINE)
 
 
 def reset_library_state():
